@@ -18,6 +18,7 @@ import (
 	"os"
 	"sort"
 	"strconv"
+	"strings"
 	"sync"
 	"sync/atomic"
 
@@ -86,6 +87,10 @@ func errClass(err error) string {
 		return "valid"
 	case errors.Is(err, errResource):
 		return "resfail"
+	case errors.As(err, &validate.PathError{}):
+		return "config"
+	case strings.Contains(err.Error(), "multiple control regions"):
+		return "multi"
 	default:
 		return "other"
 	}
